@@ -381,6 +381,13 @@ structure Params where
   ssl : Bool
 deriving DecidableEq, Repr
 
+instance : DecidableEq (Except Err Params) := fun a b =>
+  match a, b with
+  | .ok x, .ok y => if h : x = y then isTrue (by rw [h]) else isFalse (fun e => by cases e; exact h rfl)
+  | .error x, .error y => if h : x = y then isTrue (by rw [h]) else isFalse (fun e => by cases e; exact h rfl)
+  | .ok _, .error _ => isFalse (fun e => by cases e)
+  | .error _, .ok _ => isFalse (fun e => by cases e)
+
 /-- `UriConnection(uri, lazy=True).parameters` (the entries the URI determines), or the error raised -/
 def connectionParams (v6ok : Str → Bool) (uri : Str) : Except Err Params := do
   let p ← urlparse v6ok (patchUri uri)
